@@ -173,6 +173,43 @@ theorem arrayIter_is_next_loop (m : Dec α) (bs : Bytes) :
   | err e r => rfl
   | panic => rfl
 
+/-- **`map_iter_with(..)` collected = `Dec.mapIter`** (the body of the map `Decode` impls; entries flattened to
+    key, value, key, value …): open, then `next` until `None` or the first error, with the element decoder
+    "key then value". -/
+theorem mapIter_is_next_loop (mk mv : Dec α) (bs : Bytes) :
+    Dec.mapIter mk mv bs =
+      match mapOpen bs with
+      | .ok s _ =>
+        (match drain (do let k ← mk; let v ← mv; pure [k, v]) (fuelFor s) s with
+         | .ok xs r => .ok xs.flatten r
+         | .err e r => .err e r
+         | .panic => .panic)
+      | .err e r => .err e r
+      | .panic => .panic := by
+  show (Dec.map >>= fun l => match l with
+      | some n => (Dec.repeatN (do let k ← mk; let v ← mv; pure [k, v]) n >>= fun xs => pure xs.flatten)
+      | none => (Dec.remaining >>= fun r =>
+          Dec.untilBreak (do let k ← mk; let v ← mv; pure [k, v]) (r.length + 1) >>= fun xs => pure xs.flatten)) bs = _
+  rw [Dec.bind_run]
+  unfold mapOpen
+  cases Dec.map bs with
+  | ok l r =>
+    cases l with
+    | some n =>
+      show (Dec.repeatN (do let k ← mk; let v ← mv; pure [k, v]) n >>= fun xs => pure xs.flatten) r =
+        (match drain (do let k ← mk; let v ← mv; pure [k, v]) (n + 1) ⟨some n, r⟩ with
+         | .ok xs r => .ok xs.flatten r | .err e r => .err e r | .panic => .panic)
+      rw [drain_definite _ n (n + 1) r (by omega), Dec.bind_run]
+      cases Dec.repeatN (do let k ← mk; let v ← mv; pure [k, v]) n r <;> rfl
+    | none =>
+      show (Dec.untilBreak (do let k ← mk; let v ← mv; pure [k, v]) (r.length + 1) >>= fun xs => pure xs.flatten) r =
+        (match drain (do let k ← mk; let v ← mv; pure [k, v]) (r.length + 1) ⟨none, r⟩ with
+         | .ok xs r => .ok xs.flatten r | .err e r => .err e r | .panic => .panic)
+      rw [drain_indefinite, Dec.bind_run]
+      cases Dec.untilBreak (do let k ← mk; let v ← mv; pure [k, v]) (r.length + 1) r <;> rfl
+  | err e r => rfl
+  | panic => rfl
+
 /-- a definite iterator is fused: once exhausted it keeps answering `None` and nothing moves. -/
 theorem definite_fused (m : Dec α) (r : Bytes) : iterNext m ⟨some 0, r⟩ = (.done, ⟨some 0, r⟩) := rfl
 
